@@ -9,9 +9,14 @@ Import ListNotations.
 Open Scope string_scope.
 Open Scope Z_scope.
 
-(* Ingress, VirtualServer(Route) and TransportServer backends (getEndpointsForIngressBackend /
+(* [fx : Fixes] is the code variant: for each of the proposed repairs F40 / F41 / F42 whether the
+   tree contains it ([repaired] = all, [legacy] = none).  The theorems are proved for every
+   variant; where a repair removes a premise the premise reads  fx4x fx = true \/ <old premise>.
+   The check reads the variant of the tree under test off the corpus witnesses on every run.
+
+   Ingress, VirtualServer(Route) and TransportServer backends (getEndpointsForIngressBackend /
    getEndpointsForUpstream).  When the call returns endpoints l for a non-ExternalName service:
-   the service is the referenced one; the service port is the referenced one (under [unnamed_ok]:
+   the service is the referenced one; the service port is the referenced one (with F40, or under [unnamed_ok]:
    an unnamed service port carries the number the backend asks for -- refuted without it, see
    C14_port_match_refuted); P is what that port's target maps to (its own number when unset, the
    number, or for a name the container port of that name of the first listed pod); and the
